@@ -18,6 +18,7 @@ import (
 	"github.com/vektah/gqlparser/v2/gqlerror"
 	"pgregory.net/rapid"
 
+	"vh/deferchk"
 	"vh/strictjson"
 	"vh/vfrun"
 )
@@ -1070,4 +1071,17 @@ func TestOmittable(t *testing.T) {
 			return OmitCase{S: genBytes(t), I: i, Set: rapid.Bool().Draw(t, "set")}
 		},
 		Check: checkOmit}, vfrun.N(10000, 500000))
+}
+
+// TestGeneratedPayloads: what servers generated from /repo's templates (single-file and
+// follow-schema layout) serialize for operations with @defer, read off the wire of the multipart/mixed
+// and SSE transports: every payload must be valid JSON that decodes to the value the reference
+// execution prescribes (the shared @defer oracle merges the payloads and compares), whatever the
+// transport buffers between producing a payload and writing it.
+func TestGeneratedPayloads(t *testing.T) {
+	vfrun.Run(t, vfrun.Prop[deferchk.Case]{Property: "C08", Name: "TestGeneratedPayloads", Gen: func(t *rapid.T) deferchk.Case {
+		c := deferchk.Gen(t)
+		c.Via = rapid.SampledFrom([]string{"mixed", "mixed", "sse"}).Draw(t, "wire")
+		return c
+	}, Check: deferchk.Check}, vfrun.N(600, 30000))
 }
